@@ -205,6 +205,11 @@ Convert(c, a) ==
        /\ img' = IF r.res = "ok" THEN r.img ELSE IF SrcKind(c) \in {"yuv"} \/ c = "RgbToYuv" THEN img ELSE NoImage   \* borrowed sources survive
        /\ Record(c, a, r.res)
 
+\* accessors: data_mut() replaces payload samples, into_data() releases the payload, clone() duplicates the image; none of them
+\* touches the dimensions or the metadata (conformance: ev = "acc" in TraceSession.tla)
+MutatePayload == img.kind \in {"rgb", "lin", "xyb", "hsl"} /\ img' = img /\ Record("MutatePayload", [none |-> 0], "ok")
+CloneImage    == img.kind \in Kinds /\ img' = img /\ Record("Clone", [none |-> 0], "ok")
+IntoData      == img.kind \in {"rgb", "lin", "xyb", "hsl"} /\ img' = NoImage /\ Record("IntoData", [none |-> 0], "ok")
 NoArgs == [none |-> 0]
 ConvertAny ==
   \/ \E c \in {"YuvToRgb", "YuvToLin", "YuvToXyb", "RgbToLin", "RgbToXyb", "LinToXyb", "LinToHsl", "XybToLin", "HslToLin"} : Convert(c, NoArgs)
@@ -216,6 +221,7 @@ Next == /\ ncalls < MaxCalls
         /\ \/ /\ (FreshOnly => img.kind = "none")
               /\ (NewYuv \/ NewRgb \/ NewFloat("lin", "NewLin") \/ NewFloat("xyb", "NewXyb") \/ NewFloat("hsl", "NewHsl"))
            \/ ConvertAny
+           \/ MutatePayload \/ CloneImage \/ IntoData
 Spec == Init /\ [][Next]_vars
 
 -------------------------------------------------------------------------------------
